@@ -95,6 +95,14 @@ func chainSteps() []step {
 	add(C, "list.+", sList, sList, func(r *vlang.Node) *vlang.Node { return Op("+", r, o) })
 	// the original receiver once more: an earlier step that changed it in place shows up here
 	add(X, "list.+", sList, sList, func(r *vlang.Node) *vlang.Node { return Op("+", r, V("r")) })
+	// the value that flows through the chain in ARGUMENT position: some stages traverse their argument
+	// list more than once (cross), or concurrently with the receiver (merge)
+	add(X, "list.cross", sList, sList, func(r *vlang.Node) *vlang.Node { return Me(o, "cross", r, plus) })
+	add(X, "list.merge", sList, sList, func(r *vlang.Node) *vlang.Node { return Me(o, "merge", r, lt) })
+	add(X, "list.+", sList, sList, func(r *vlang.Node) *vlang.Node { return Op("+", o, r) })
+	add(X, "list.=", sList, sBool, func(r *vlang.Node) *vlang.Node { return Op("=", o, r) })
+	add(X, "list.~", sList, sBool, func(r *vlang.Node) *vlang.Node { return Op("~", o, r) })
+	add(X, "list.cross", sList, sList, func(r *vlang.Node) *vlang.Node { return Me(r, "cross", r, plus) })
 	add(X, "list.mapReduce", sList, sList, m("mapReduce", vlang.ListN(), lam("xy", Me(x, "append", y))))
 	add(X, "list.map", sList, sList, m("map", lam("e", vlang.MemberN(e, "values"))))
 	add(X, "list.map", sList, sList, m("map", lam("e", Me(e, "size"))))
